@@ -83,9 +83,9 @@ def generate(seed: int, tier: str = "quick") -> dict:
         ct = cur_tick(max(bar, 0))
         kind = rp.choice(
             ["add_by_tick"] * 4 + ["add"] * 2 + ["remove"] * 2 + ["collect", "buy", "sell", "swap", "even", "add_by_value",
-             "read_balance", "read_pos", "est_amount", "est_liq", "t2p", "p2t", "reject"]
+             "read_balance", "read_pos", "est_amount", "est_liq", "t2p", "p2t", "reject", "lend_out", "take_back"]
         )
-        if n_created == 0 and kind in ("remove", "collect", "read_pos", "est_liq"):
+        if n_created == 0 and kind in ("remove", "collect", "read_pos", "est_liq", "lend_out", "take_back"):
             kind = "add_by_tick"
         o = None
         where = rp.choice(["below", "in", "in", "above"])  # where the current price sits relative to the range
@@ -154,6 +154,9 @@ def generate(seed: int, tier: str = "quick") -> dict:
             lo, hi = rng_ticks(min_gap=3)
             o = {"op": "uni.add_by_value", "a": {"lo": lo, "hi": hi, "value": {"f": f"wallet:{Q}", "x": str(round(rp.uniform(0.01, 0.3), 3))}, "where": where}}
             n_created += 1
+        elif kind in ("lend_out", "take_back"):
+            # a position handed to another market (and taken back): it leaves the pool's own balance, whichever token is token0
+            o = {"op": "uni.transfer_out" if kind == "lend_out" else "uni.transfer_in", "a": {"pos": {"created": rp.randint(0, 7)}}}
         elif kind == "read_balance":
             o = {"op": "uni.read_balance", "a": {}}
         elif kind == "read_pos":
